@@ -298,6 +298,55 @@ class Check:
             list(ex.map(run_chunk, chunks))
         return results, deaths
 
+    def rp(self, family, scenario, validate=None, judge="agree", race=False, strip=("sc", "ev", "i", "panic")):
+        """Replay recipe stored with a violation: how to re-run exactly this case (bin/verifcheck <ID> --replay <file>)."""
+        if isinstance(scenario, tuple):
+            scenario = json.loads(scenario[1])
+        elif isinstance(scenario, str):
+            scenario = json.loads(scenario)
+        return {"_replay": {"family": family, "scenario": scenario, "validate": list(validate) if validate else None, "judge": judge, "race": race, "strip": list(strip)}}
+
+    def run_replay(self):
+        """Re-execute the case of a replay file on the current tree; exit 1 if it still violates."""
+        with open(self.replay) as f:
+            r = json.load(f)
+        ctx = (r.get("case") or {}).get("_replay")
+        if not ctx:
+            raise FrameworkError("replay file carries no replay recipe")
+        binary = self.build_worker(race=ctx.get("race", False))
+        env = dict(os.environ, VERIF_FIXTURES=os.path.join(VERIF, "fixtures"), VERIF_REPO=REPO)
+        if ctx.get("race"):
+            env["GORACE"] = "halt_on_error=1 exitcode=66"
+        scen = dict(ctx["scenario"])
+        scen.setdefault("sc", 0)
+        bad = None
+        for attempt in range(3):
+            res, deaths = self.run_worker(ctx["family"], [scen], parallel=1, binary=binary, env=env)
+            evs = res.get(scen["sc"], [])
+            if deaths:
+                bad = "process %s" % list(deaths.values())[0]["kind"]
+            elif ctx.get("validate"):
+                ev2 = [{k: v for k, v in e.items() if k not in ctx.get("strip", [])} for e in evs]
+                if ev2 and ev2[0].get("op") != "reset":
+                    ev2 = [{"op": "reset"}] + ev2
+                if self.validate_traces(ctx["validate"][0], ctx["validate"][1], ev2):
+                    bad = "trace rejected by %s" % ctx["validate"][0]
+            elif ctx.get("judge") == "outcome":
+                recs = [e for e in evs if e.get("ev") == "call-end" and "outcome" in e]
+                if any(e["outcome"] not in ("value", "error") or e.get("alloc", 0) > 33554432 + 64 * e.get("len", 0) for e in recs):
+                    bad = "call violates the outcome contract"
+            else:
+                if any(e.get("agree") is False for e in evs):
+                    bad = "disagreement with the specification"
+            if bad:
+                break
+        if bad:
+            print("VIOLATION property=%s replay=%s" % (self.pid, self.replay))
+            log("  still violates:", bad, "--", r.get("what"))
+            return 1
+        print("%s replay: the case no longer violates on this tree" % self.pid)
+        return 0
+
     def reproduce(self, family, sc, still_bad, env=None):
         """Confirm a deviation on a fresh worker: first the scenario alone; if it does not show alone (state kept by the
         library across calls in one process), together with the scenarios that preceded it in its worker process.
@@ -373,6 +422,11 @@ def main(pid, level, fn):
     c = None
     try:
         c = Check(pid, level)
+        if c.replay:
+            rc = c.run_replay()
+            if not c.keep:
+                shutil.rmtree(c.scratch, ignore_errors=True)
+            sys.exit(rc)
         fn(c)
         rc = c.finish()
         sys.exit(rc)
